@@ -12,19 +12,19 @@ CHECKS = {
    note="trusted: the spelling renderer (harness/src/broad.rs) only produces spellings that denote the same sentence; three inherent ambiguities of the notation are excluded by construction and listed in the evidence assumptions",
    tech="property-based testing, metamorphic relation between two spellings of one generated sentence + by-construction byte-exact values"),
  "C03": dict(
-   text="property-based search over (definition, sentence, admissible permutation) plus a second family (repeated group of a named lead and positionals, named occurrences permuted around the words); thorough tier additionally enumerates every admissible permutation of levels with <=5 blocks",
+   text="property-based search over (definition, sentence, admissible permutation) plus a second family (repeated group of a named lead and positionals, named occurrences permuted around the words); thorough tier additionally enumerates every admissible permutation of levels with <=5 blocks; a third family: an option with an optional value (choice between an adjacent()-restricted argument and a bare flag of the same name) among switches, a repeated option and words, every admissible order run; empty values attached with `=`",
    note="trusted: block construction (an argument and its value stay one block) and the same-field order constraint computed by the generator",
    tech="property-based testing, metamorphic relation between a line and a generated permutation of its named blocks (exhaustive permutations for small levels in the thorough tier)"),
  "C05": dict(
-   text="property-based search: accepted generated sentences with unique tokens are checked for linearity, then a foreign item of four kinds is inserted at every position and the run must fail on stderr",
+   text="property-based search: accepted generated sentences with unique tokens are checked for linearity, then a foreign item of four kinds is inserted at every position and the run must fail on stderr; a word that begins like a cluster (declared non-ASCII flag + undeclared letter) must arrive as one word with nothing around it lost",
    note="trusted: the generator's notion of 'no parser can own this item' (undeclared names; surplus word only when positional slots are bounded and full; second copy only of single-use options)",
    tech="property-based testing: invariant over the result (token multiset) + exhaustive single-item insertion at every position of each generated line"),
  "C09": dict(
-   text="property-based search over definitions with positionals of every strictness/arity and lines with `--` at generated positions and dash-looking data right of it; metamorphic, validity and (canonical shapes) reference-model oracles",
+   text="property-based search over definitions with positionals of every strictness/arity and lines with `--` at generated positions and dash-looking data right of it; metamorphic, validity and (canonical shapes) reference-model oracles; the words that start bpaf's completion machinery among the words right of `--`; a defaulted non_strict positional in front of the positional collecting the rest",
    note="trusted: the reference model for canonical shapes; for other positional orders only the metamorphic and validity clauses are asserted (documentation does not fix more)",
    tech="property-based testing: metamorphic replacement of everything right of `--`, validity predicate on accepted values, reference model for canonical shapes"),
  "C10": dict(
-   text="property-based search: help flag inserted as its own item at every position left of `--` of generated valid/invalid/incomplete lines; outcome must be stdout with the help text of the level entered (computed from that level alone), also with the flag given twice; version flag likewise on valid lines; one case in eight: a choice between a positional branch and subcommands (command bare/fallback/optional) with the help flag behind the command name",
+   text="property-based search: help flag inserted as its own item at every position left of `--` of generated valid/invalid/incomplete lines; outcome must be stdout with the help text of the level entered (computed from that level alone), also with the flag given twice; version flag likewise on valid lines; one case in eight: a choice between a positional branch and subcommands (command bare/fallback/optional) with the help flag behind the command name; a help flag lost inside the first contiguous block of an adjacent command is reported under its own signature (the recorded finding needs a foreign item or an earlier failing block)",
    note="trusted: the standalone rendering of a level's help as the reference text; for mutated lines any level on the chain of command names is accepted",
    tech="property-based testing: exhaustive insertion positions per generated line, differential against the help of the level built alone"),
  "C04": dict(
@@ -32,11 +32,11 @@ CHECKS = {
    note="termination cannot be established by testing: bounded generation; a single case that runs longer than 60 s (cases take milliseconds) is reported as a violation `no-termination`, a stalled worker without an attributable case as inconclusive (exit 2). `--bpaf-complete-*` items are excluded (documented process exits)",
    tech="property-based testing / fuzz-style totality check (catch_unwind + watchdog) with a history-replay purity oracle"),
  "C06": dict(
-   text="enumeration of every wrapper stack of depth <=3 (quick: <=2) x 5 contexts (plain, inside a choice, around a choice, subcommand, adjacent group) x 6 typed leaves x 6 invalid texts, plus property-based sampling with catch flags and unrelated fields; invalid-present must fail with the conversion/guard text, absent must default exactly when the stack can produce a value from nothing",
+   text="enumeration of every wrapper stack of depth <=3 (quick: <=2) x 5 contexts (plain, inside a choice, around a choice, subcommand, adjacent group) x 6 typed leaves x 6 invalid texts, plus property-based sampling with catch flags and unrelated fields; invalid-present must fail with the conversion/guard text, absent must default exactly when the stack can produce a value from nothing; fallback_to_usage set on a third of the definitions whose line has other items",
    note="trusted: the abstract evaluation of wrapper semantics on absence (harness/src/props/c06.rs absent_value), written from the documentation of each wrapper; FromStr error texts are obtained by calling the same FromStr",
    tech="exhaustive enumeration of wrapper stacks + property-based sampling; oracle: by-construction expectation per stack"),
  "C07": dict(
-   text="property-based search over choices of 2-4 alternatives of six kinds under bare/optional/many/some, lines built from scenarios with all items shuffled; independent evaluation of the documented winner rule",
+   text="property-based search over choices of 2-4 alternatives of six kinds under bare/optional/many/some, lines built from scenarios with all items shuffled; independent evaluation of the documented winner rule; every definition is also built with bpaf::choice([..]) and must behave as construct!([..]) does",
    note="trusted: the rule evaluator in harness/src/props/c07.rs (leftmost item wins, ties to the first listed, many/some in order of leftmost item); optional over always-succeeding alternatives is skipped (value not fixed by the documentation)",
    tech="property-based testing against a small reference evaluator of the documented alternative rule"),
  "C08": dict(
@@ -44,11 +44,11 @@ CHECKS = {
    note="trusted: reference model (levels) and standalone help rendering as the reference text",
    tech="property-based testing against the reference grammar model, plus differential help text per command level"),
  "C19": dict(
-   text="property-based search over four adjacent-group shapes x wrappers with 0-3 blocks placed among other options (a top-level word may stand in front), a second family of positional pairs right of `--`, with block mutations (cut short, split by a foreign item, lead not first, members reordered); by-construction expectation and a contiguity predicate on every accepted value",
+   text="property-based search over four adjacent-group shapes x wrappers with 0-3 blocks placed among other options (a top-level word may stand in front), a second family of positional pairs right of `--`, with block mutations (cut short, split by a foreign item, lead not first, members reordered); by-construction expectation and a contiguity predicate on every accepted value; third family: blocks inside the block of an adjacent command (adjacent group or regular subcommand as its body) with enclosing switches between and inside blocks",
    note="trusted: the generator's block bookkeeping (which item belongs to which block, which item is foreign)",
    tech="property-based testing: by-construction values for well-formed lines, must-fail mutants, validity predicate (contiguous run starting at the lead) on accepted lines"),
  "C12": dict(
-   text="property-based search over decorated definitions; for every reachable command level the expectation (visible items, first names, metavariables, markers) is computed from the definition and compared with the tokenised help text in both directions; differential without usage decorations; every shown name probed for acceptance",
+   text="property-based search over decorated definitions; for every reachable command level the expectation (visible items, first names, metavariables, markers) is computed from the definition and compared with the tokenised help text in both directions; differential without usage decorations; every shown name probed for acceptance; second family: any(..) items with help texts, alone and as members of an adjacent block, visible or hidden",
    note="trusted: the visibility computation in harness/src/props/c12.rs (what hide/adjacent/alias mean for the item lists) and unique marker words as the carrier of 'help text present'",
    tech="property-based testing: by-construction expectation + tokenising lexer of the help text + metamorphic (decorations removed) + acceptance probes"),
  "C13": dict(
@@ -56,15 +56,15 @@ CHECKS = {
    note="trusted: width 65535 as the 'unwrapped' reference (largest width std::fmt accepts); the exception clause of the width rule is implemented generously (a wrapped term tail counts as a term)",
    tech="property-based testing: metamorphic relation between widths + validity predicate per line"),
  "C14": dict(
-   text="property-based search over partially typed lines (every cut of generated sentences x 10 kinds of typed word) at completion revision 0; each returned row is classified against name/value/metavariable sets computed from the definition and the chain of commands entered; completeness for freshly typed --prefixes and command prefixes; metamorphic relation (an unrelated switch before the typed word changes nothing at the active level); second family: a name that is an alternative to a positional item",
+   text="property-based search over partially typed lines (every cut of generated sentences x 10 kinds of typed word) at completion revision 0; each returned row is classified against name/value/metavariable sets computed from the definition and the chain of commands entered; completeness for freshly typed --prefixes and command prefixes; metamorphic relation (an unrelated switch before the typed word changes nothing at the active level); second family: a name that is an alternative to a positional item; completers attached on top of optional/many/some/fallback wrappers of named arguments",
    note="trusted: the chain-of-levels computation and the candidate sets derived from the definition; completeness only for items that are a field of their own",
    tech="property-based testing: validity predicate over parsed completion rows + completeness check from a by-construction expectation"),
  "C15": dict(
-   text="property-based search with hostile strings; differential between revision 0 and the bash/zsh/fish/elvish renderings through an independent shell-word lexer (directive grammar, all data single-quoted, each candidate/completer exactly once); ~6% of cases sourced by a real bash with stubbed completion builtins and a canary file",
+   text="property-based search with hostile strings; differential between revision 0 and the bash/zsh/fish/elvish renderings through an independent shell-word lexer (directive grammar, all data single-quoted, each candidate/completer exactly once); ~6% of cases sourced by a real bash with stubbed completion builtins and a canary file; help texts and group titles with soft and preserved line breaks, indented blocks and second paragraphs",
    note="no zsh/fish/elvish binaries in the sandbox: zsh text is executed under bash with stubs (shared quoting semantics), fish/elvish are checked against their line format; candidates/groups never contain tab/newline",
    tech="property-based testing + differential (revision 0 vs shell renderers) + lexer + execution in a sandboxed bash"),
  "C16": dict(
-   text="property-based search over definitions whose texts carry HTML/roff/markdown injections; the three renderers must return; completeness against what the console help of every described level shows; HTML tag lexer (allowed tags, balance) and roff lexer (allowed requests and escapes) with a decode-and-find round trip for every injected text",
+   text="property-based search over definitions whose texts carry HTML/roff/markdown injections; the three renderers must return; completeness against what the console help of every described level shows; HTML tag lexer (allowed tags, balance) and roff lexer (allowed requests and escapes) with a decode-and-find round trip for every injected text; command paths that collide once joined with `-` or lower-cased still get one section each",
    note="no groff/mandoc/HTML parser available: lexers written from the formats the renderers emit are the trusted base",
    tech="property-based testing: validity lexers + round-trip (decode escapes, find the user's text) + completeness against --help"),
  "C11": dict(
@@ -80,7 +80,7 @@ CHECKS = {
    note="trusted: the corpus decoder is feature independent (completers are simply not attached where the feature is absent); panic locations are not compared, messages are",
    tech="property-based testing, differential between cargo feature builds of one generated corpus"),
  "C17": dict(
-   text="differential between #[derive(Bpaf)] and the documented hand-written equivalent over a generated family of types (96 per seed in quick, 320 in thorough; doc layouts and explicit overrides stratified over the type index; structs, enums, command enums, options structs embedding a parser-mode struct through external), both compiled into one executable and run on generated argument vectors (20k in quick): equal values, equal failure class, equal text, equal help",
+   text="differential between #[derive(Bpaf)] and the documented hand-written equivalent over a generated family of types (96 per seed in quick, 320 in thorough; doc layouts and explicit overrides stratified over the type index; structs, enums, command enums, options structs embedding a parser-mode struct through external), both compiled into one executable and run on generated argument vectors (20k in quick): equal values, equal failure class, equal text, equal help; top-level command types with multi-word names, explicit header/footer on enum command variants",
    note="trusted: the twin printer in harness/src/c17gen.rs as a reading of the documented derive rules; a family that rustc rejects is the verdict derived-type-does-not-compile, any other build problem exit 2",
    tech="property-based testing, differential (derive macro vs generated hand-written combinators) over a seeded family of type definitions"),
 }
